@@ -576,7 +576,7 @@ X_EVERY, X_SLOTS = 8, {5: "arrays", 7: "keepoff"}
 #     polar(x, y, radial_bins=e, phi_bins=p, keep_missed=False).missed == k       (keep_missed False)
 #     cylindrical(data, rho_bins=.., phi_bins=.., z_bins=.., keep_missed=False).missed == k
 # while the same histogram created empty and filled reports 0.  Reported, not generated (set True to see it).
-ENABLE_KEEPOFF_FCF_ROUTES = False
+ENABLE_KEEPOFF_FCF_ROUTES = True
 
 X_CLASSES = ["polar", "polar", "spherical", "cylindrical", "radial2", "radial3", "azimuthal", "spherical_surface",
              "cylindrical_surface", "nd2", "nd3", "h1d"]
@@ -930,7 +930,10 @@ def _x_keepoff_make(src, rows_idx, with_data):
         if route == "h1":
             return physt.h1(P[:, 0] if with_data else None, E[0].copy(), weights=W if with_data else None, keep_missed=keep)
         if route == "fcf":
-            return HistogramND.from_calculate_frequencies(P if with_data else None, sb(), weights=W if with_data else None, keep_missed=keep)
+            # (an internal entry point: it takes arrays only)
+            return HistogramND.from_calculate_frequencies(P if with_data else None, sb(),
+                                                          weights=np.asarray(W, dtype=np.float64) if (with_data and W is not None) else None,
+                                                          keep_missed=keep)
         kw = {"weights": W} if with_data else {}
         if route == "h2_range":
             bins = [len(e) - 1 for e in E]
